@@ -2,7 +2,7 @@
 
 Three exhaustive explorations, all on the real code:
  1. schedules (controlled)  - mc/sched.py owns the iteration order of every set/frozenset gotranx builds:
-      * global orders: EVERY permutation of the model's name universe (<= 6 names quick / 7 thorough), all sets iterate in that order;
+      * global orders: EVERY permutation of the model's name universe (<= 5 names: generated code compared; 6-7 names: names and slot layout compared), all sets iterate in that order;
       * per-object deviations: default = sorted order, a deviation = any other permutation of ONE iterated set object; all runs with
         <= 1 (quick) / 2 (thorough) deviations, CHESS-style, executions always run to completion.
     Invariant: bytes of gotran2py / gotran2c get_code (all schemes) and the names of sorted_states() / sorted_assignments() are identical
@@ -66,6 +66,9 @@ def family(tier):
         base = base[:: max(1, len(base) // 8)][:8]
         var = [(k, s) for k, s in var if "|split|" in k or "chain" in k]
         var = var[:: max(1, len(var) // 6)][:6]
+    else:
+        # thorough: every base shape (1 368 models); of the 4 175 layout / unused / naming variants every 35th (the full product is days of work)
+        var = var[::35]
     return out + base + var
 
 
@@ -212,21 +215,21 @@ def run_history(hist):
 
 
 def bounds(tier):
-    return {"global_orders_max_names": "<=5 full observation, 6-7 names+layout only" if tier == "quick" else "<=6 full, 7-8 names+layout only", "per_object_deviations": 1 if tier == "quick" else 2,
+    return {"global_orders_max_names": "<=5 full observation, 6-7 names+layout only", "per_object_deviations": 1 if tier == "quick" else 2,
             "hash_seeds": "0..31 + random" if tier == "quick" else "0..255 + random", "history_depth": 2 if tier == "quick" else 3,
             "history_ops": len(history_ops()), "family": len(family(tier))}
 
 
 def items(tier):
     its = []
-    maxn = 7 if tier == "quick" else 8
+    maxn = 7
     for key, sp in family(tier):
         uni = universe(sp)
         its.append({"key": f"sched-object|{key}", "kind": "sched-object", "spec": sp, "name": key, "bound": 1 if tier == "quick" else 2,
                     "sample": {"model": key, "mode": "per-object deviations", "text": models.spec_text(sp)}})
         if len(uni) <= maxn:
             perms = list(itertools.permutations(range(len(uni))))
-            full = len(uni) <= (5 if tier == "quick" else 6)  # full observation (code bytes); above that: names/slot layout only
+            full = len(uni) <= 5  # full observation (code bytes); above that: names/slot layout only
             for i, ch in enumerate(E.chunks(perms, 60 if full else 720)):
                 its.append({"key": f"sched-global{'' if full else '-light'}|{key}|{i:04d}", "kind": "sched-global" if full else "sched-global-light", "spec": sp, "name": key, "perms": ch,
                             "sample": {"model": key, "mode": "global order" + ("" if full else " (names and slot layout only)"), "first_order": [uni[j] for j in ch[0]]}})
